@@ -56,6 +56,8 @@ def step (cfg : Nat → LockCfg) (a : ASt) : Op → ASt × Bool
   | .release i =>
     if a.heldBy (cfg i).key (cfg i).id then ({ a with lease := updL a.lease (cfg i).key none }, true) else (a, false)
   | .setExpire i s => ({ a with secs := updN a.secs i (toUint32 s) }, true)
+  | .acquireS i seconds =>
+    if a.freeFor (cfg i).key (cfg i).id then (a.grant (cfg i).key (cfg i).id seconds, true) else (a, false)
 
 def results (cfg : Nat → LockCfg) : ASt → List Op → List Bool
   | _, [] => []
@@ -69,7 +71,7 @@ def ASt.view (a : ASt) (k : String) : Option (String × Int) :=
 def explain (cfg : Nat → LockCfg) (a : ASt) (op : Op) (impl : Bool) : Option String :=
   if (step cfg a op).2 = impl then none else
   match op with
-  | .acquire i =>
+  | .acquire i | .acquireS i _ =>
     match a.holder (cfg i).key with
     | some l =>
       if impl then some s!"two holders: Acquire by instance {i} succeeded while {l.holder} holds {(cfg i).key} for another {l.till - a.now} ms"
@@ -99,6 +101,7 @@ def Belief.none : Belief := fun _ => Option.none
 def Belief.step (b : Belief) (now : Nat) (secs : Nat → Nat) (op : Op) (res : Bool) : Belief :=
   match op with
   | .acquire i => if res then updB b i (some (now + (secs i * 1000 + 500))) else b
+  | .acquireS i seconds => if res then updB b i (some (now + (seconds * 1000 + 500))) else b
   | .release i => updB b i Option.none
   | _ => b
 
